@@ -940,7 +940,7 @@ class ViewRandom(View):
     def cases(self, tier, rng):
         nc = self.colors
         keys = list(VIEWERS)
-        n_cases = 500 if tier == "quick" else 20000
+        n_cases = 400 if tier == "quick" else 20000
         for i in range(n_cases):
             cls = keys[i % 4]
             nd = rng.choice([2, 3])
@@ -964,7 +964,7 @@ class VPick(View):
     name = "vpick"
     exhaustive = True
     batch = 40
-    budget_share = 0.6
+    budget_share = 1.0
 
     def cases(self, tier, rng):
         nc = self.colors
@@ -1031,7 +1031,7 @@ class VPick(View):
                         cur[f] = not cur[f]
                         ops.append(['vfl', p, f, cur[f]])
                     yield [list(pair), nc, cls, ops]
-        for i in range(150 if tier == "quick" else 6000):
+        for i in range(100 if tier == "quick" else 6000):
             cls = ('sc', 'hi')[i % 2]
             ops = random_view_seq(rng, rng.randint(4, 12), 3, cls)
             tm = 3 if i % 3 == 0 else _savable([rng.choice(TMPLS) for _ in range(3)], ops)
@@ -1528,7 +1528,7 @@ class ComboRandom(Combo):
     budget_share = 0.5
 
     def cases(self, tier, rng):
-        n = 2200 if tier == "quick" else 60000
+        n = 1600 if tier == "quick" else 60000
         for i in range(n):
             # a third of the histories on the standard datasets, the rest on random templates
             tm = ['std'] * CD if i % 3 == 0 else [rng.choice(TMPLS) for _ in range(CD)]
